@@ -318,6 +318,14 @@ def _verify_variant(c: Contract, tier: str, replay: bool, res: Result, choice: d
             base.append(SBool.lift(pv))
     for t in base:
         eng.assume(sym.mk_bool(t))
+    lemma_vcs: list[VC] = []
+    for li, lf in enumerate(c.lemmas):
+        lv = SBool.lift(lf(a))
+        vc_l = VC(f"{c.name}.lemma{li}", "lemma", "", [], lv)
+        vc_l.base_override = list(base)  # type: ignore[attr-defined]
+        lemma_vcs.append(vc_l)
+        base.append(lv)
+        eng.assume(sym.mk_bool(lv))
     # vacuity guard: the precondition must be satisfiable
     chk = eng.solver.check()
     if chk == z3.unsat:
@@ -341,7 +349,7 @@ def _verify_variant(c: Contract, tier: str, replay: bool, res: Result, choice: d
     if eng.identity_failures:
         raise Unsupported("identity check failed: " + ", ".join(eng.identity_failures))
 
-    vcs: list[VC] = []
+    vcs: list[VC] = list(lemma_vcs)
     for ob in eng.obligations:
         vcs.append(VC(ob.name, ob.kind, ob.site, ob.pc, ob.cond))
     ret_cases = [k for k in c.cases if k.kind == "ret"]
@@ -383,7 +391,7 @@ def _verify_variant(c: Contract, tier: str, replay: bool, res: Result, choice: d
         if chunk[0] != 0:
             res.paths = 0
     for vc in vcs:
-        discharge(vc, base, timeout, axioms=getattr(eng, "axiom_instantiator", None))
+        discharge(vc, getattr(vc, "base_override", base), timeout, axioms=getattr(eng, "axiom_instantiator", None))
         res.n_obligations += 1
         res.solver_time_s += vc.time_s
         res.by_backend[vc.backend] = res.by_backend.get(vc.backend, 0) + 1
